@@ -106,7 +106,11 @@ def _fillInBlanks(
 
     # Special case: empty textgrid
     if len(tier["entries"]) == 0:
-        tier["entries"].append((minTime, maxTime, blankLabel))
+        if maxTime is None or float(minTime) < float(maxTime):
+            tier["entries"].append((minTime, maxTime, blankLabel))
+        else:
+            # A span of length zero holds no interval
+            return
 
     # Create a new entry list
     entries = tier["entries"]
